@@ -820,7 +820,7 @@ def run(prog: Program, rep: Report, tier: str):
     rep.rule("R11.2", "dispatch on the unwrapped node (shared with R05.4)", floor=4)
     rep.rule("R11.3", "context double keying (shared with R05.1)", floor=4)
     rep.rule("R11.4", "context fallback through unwrap / forward reference (C16 rules)", floor=5)
-    rep.rule("R11.5", "memoised reference resolvers are pure", floor=2)
+    rep.rule("R11.5", "memoised reference resolvers are pure", floor=1)
     rep.rule("R11.8", "refs.evaluate / inspection.args / get_type_hints contracts", floor=8)
     rep.rule("R11.7", "refs.forwardref names a type by its own qualified name and module; defaults and dotted-string rule", floor=5)
     rep.rule("R11.6", "graph nodes carry (annotation, unwrapped); revisit test sees through wrappers; reference roots evaluated (shared with R09.4)", floor=5)
